@@ -12,7 +12,7 @@ import (
 // Cache for tickets received from clients keyed by fully qualified client name. Used to track replay of tickets.
 type Cache struct {
 	entries map[string]clientEntries
-	mux     sync.RWMutex
+	mux     cacheMutex
 }
 
 // clientEntries holds entries of client details sent to the service.
